@@ -147,17 +147,59 @@ func cryptoStub(in *Interp, fn *ssa.Function, pkg, name string) StubFn {
 			return func(in *Interp, fn *ssa.Function, a []Val) Val { return BVConst(64, 64) }
 		}
 	}
-	// ---- math/big: opaque integers (only passed around: exponents, sizes) --------------
+	// ---- math/big: small integers are tracked as 64-bit values (side table keyed by object), the rest is opaque
 	if pkg == "math/big" {
 		sig := fn.Signature
+		bigVal := func(in *Interp, v Val) *Term {
+			p, ok := v.(Ptr)
+			if !ok || p.Obj == nil {
+				panic(abort("unmodelled", "big.Int argument is not a pointer"))
+			}
+			if t, ok := in.bigVals[p.Obj]; ok {
+				return t
+			}
+			return BVConst(0, 64)
+		}
 		if rn == nil && name == "NewInt" {
 			return func(in *Interp, fn *ssa.Function, a []Val) Val {
 				et := sig.Results().At(0).Type().(*types.Pointer).Elem()
-				return Ptr{Obj: in.newObj(in.zero(et), "big.Int")}
+				o := in.newObj(in.zero(et), "big.Int")
+				in.bigVals[o] = a[0].(*Term)
+				return Ptr{Obj: o}
+			}
+		}
+		if rn != nil && rn.Obj().Name() == "Int" {
+			switch name {
+			case "Lsh":
+				return func(in *Interp, fn *ssa.Function, a []Val) Val {
+					x, n := bigVal(in, a[1]), a[2].(*Term)
+					if !n.IsConst || n.C > 40 || !x.IsConst || x.C > 1<<20 {
+						panic(abort("unmodelled", "big.Int.Lsh beyond the tracked 64-bit range"))
+					}
+					in.bigVals[a[0].(Ptr).Obj] = BVConst(x.C<<n.C, 64)
+					return a[0]
+				}
+			case "Set":
+				return func(in *Interp, fn *ssa.Function, a []Val) Val {
+					in.bigVals[a[0].(Ptr).Obj] = bigVal(in, a[1])
+					return a[0]
+				}
+			case "SetUint64", "SetInt64":
+				return func(in *Interp, fn *ssa.Function, a []Val) Val {
+					in.bigVals[a[0].(Ptr).Obj] = a[1].(*Term)
+					return a[0]
+				}
+			case "Uint64", "Int64":
+				return func(in *Interp, fn *ssa.Function, a []Val) Val { return bigVal(in, a[0]) }
+			case "IsUint64", "IsInt64":
+				return func(in *Interp, fn *ssa.Function, a []Val) Val { return BoolConst(true) }
 			}
 		}
 		if rn != nil && sig.Results().Len() == 1 && types.Identical(sig.Results().At(0).Type(), sig.Recv().Type()) {
-			return func(in *Interp, fn *ssa.Function, a []Val) Val { return a[0] }
+			return func(in *Interp, fn *ssa.Function, a []Val) Val {
+				delete(in.bigVals, a[0].(Ptr).Obj)
+				return a[0]
+			}
 		}
 		return nil
 	}
